@@ -29,7 +29,7 @@ class Budget(BaseException):
 
 
 class Path:
-    __slots__ = ("pc", "outcome", "value", "decisions", "model", "obls", "notes", "caps")
+    __slots__ = ("pc", "outcome", "value", "decisions", "model", "obls", "notes", "caps", "syms")
 
     def __init__(self):
         self.pc = []
@@ -113,6 +113,7 @@ class Engine:
             Engine.cur = prev
         self.stats["paths"] += 1
         self.path.decisions = list(self.trail)
+        self.path.syms = dict(self.syms)
         return self.path
 
     # --------------------------------------------------------------- solver
@@ -326,6 +327,17 @@ class Engine:
         return {n: m.eval(t, model_completion=True).as_long() for n, t in self.syms.items()}
 
 
+def path_model(p, timeout_ms=20000):
+    """{symbol name: value} for one model of a path's condition (every symbol the path created, completed)"""
+    s = z3.Solver()
+    s.set("timeout", timeout_ms)
+    s.add(*p.pc)
+    if s.check() != z3.sat:
+        return None
+    m = s.model()
+    return {n: m.eval(t, model_completion=True).as_long() for n, t in (p.syms or {}).items()}
+
+
 def eng():
     e = Engine.cur
     if e is None:
@@ -360,6 +372,8 @@ class SInt:
             return x
         if _real_isinstance(x, bool):
             x = _real_int(x)
+        if _real_isinstance(x, float) and x.is_integer():
+            x = _real_int(x)  # e.g. (l / 2) in SRECline.set: comparisons/arithmetic with an integral float
         if _real_isinstance(x, _real_int):
             if x >= 0:
                 return SInt(z3.BitVecVal(x, _bits(x)), False)
